@@ -7,6 +7,7 @@ import Driver.CursorOps
 import Driver.NumberifyOps
 import Driver.FuncOps
 import Driver.InvOps
+import Driver.ShellOps
 namespace Bql
 
 def showDesc (d : List (String × Ty)) : String :=
@@ -62,6 +63,7 @@ def handle (st : DState) (sx : Sexp) : DState × String :=
   | .list (.atom "invunits" :: _) => (st, (handleInv sx).getD "bad-op")
   | .list (.atom "invcost" :: _) => (st, (handleInv sx).getD "bad-op")
   | .list (.atom "balance" :: _) => (st, (handleInv sx).getD "bad-op")
+  | .list (.atom "shellscript" :: _) => (st, (handleShell sx).getD "bad-op")
   | .list (.atom "numberify" :: _) => (st, (handleNumberify sx).getD "bad-op")
   | .list (.atom "cursor" :: _) => (st, (handleCursor sx).getD "bad-op")
   | .list [.atom "modelled-functions"] => (st, " ".intercalate modelledFunctions)
